@@ -12,6 +12,7 @@ import (
 	"strconv"
 	"sync"
 	"sync/atomic"
+	"time"
 
 	"pipelined.dev/signal"
 )
@@ -85,7 +86,11 @@ func runC11(out *bufio.Writer, st *Stats, r *Rng, k Kind, ch, L, K, G, M, procs 
 	var mu sync.Mutex
 	var events []poolEvent
 	ids := map[uintptr]int{}
-	var keep []DynBuf // keeps every header alive: addresses are never reused
+	// Headers are NOT kept alive by the harness: pooled buffers must be able to become garbage (the
+	// property quantifies over collections that drop and re-create them). If an address is reused by a
+	// new allocation the log shows a reuse of an id that was put before - which the pool machine
+	// admits, and freshness is checked on every get - so no false alarm can arise from address reuse; a
+	// buffer that is currently held is referenced and its address cannot be reused.
 	seeds := make([]uint64, G)
 	for i := range seeds {
 		seeds[i] = r.Next()
@@ -121,7 +126,6 @@ func runC11(out *bufio.Writer, st *Stats, r *Rng, k Kind, ch, L, K, G, M, procs 
 				if !known {
 					id = len(ids)
 					ids[b.HeaderPtr()] = id
-					keep = append(keep, b)
 				}
 				events = append(events, poolEvent{true, g, id, !known, shapeOK, zeroOK})
 				mu.Unlock()
@@ -157,6 +161,60 @@ func runC11(out *bufio.Writer, st *Stats, r *Rng, k Kind, ch, L, K, G, M, procs 
 		}(g)
 	}
 	wg.Wait()
+	// herd rounds: everybody puts, the pool is emptied by two garbage collections (finalizers, victim
+	// caches and other "rescue" paths run), then everybody gets at the same moment and holds its buffer
+	// until all have one - so a buffer handed out twice is held twice at the same time.
+	rounds := 12
+	if M >= 1000 {
+		rounds = 120
+	}
+	for rd := 0; rd < rounds; rd++ {
+		held := make([]DynBuf, G)
+		var w1, w2 sync.WaitGroup
+		start := make(chan struct{})
+		w1.Add(G)
+		w2.Add(G)
+		release := make(chan struct{})
+		for g := 0; g < G; g++ {
+			go func(g int) {
+				<-start
+				b := pool.Get()
+				shapeOK := b.Channels() == ch && b.Len() == ch*L && b.Cap() == ch*K && b.BitDepth() == k.Width()
+				_, cells, _ := b.Raw()
+				zeroOK := true
+				for _, c := range cells {
+					if c != 0 {
+						zeroOK = false
+					}
+				}
+				mu.Lock()
+				id, known := ids[b.HeaderPtr()]
+				if !known {
+					id = len(ids)
+					ids[b.HeaderPtr()] = id
+				}
+				events = append(events, poolEvent{true, g, id, !known, shapeOK, zeroOK})
+				mu.Unlock()
+				held[g] = b
+				w1.Done()
+				<-release
+				mu.Lock()
+				events = append(events, poolEvent{false, g, id, false, true, true})
+				mu.Unlock()
+				pool.Put(b)
+				w2.Done()
+			}(g)
+		}
+		close(start)
+		w1.Wait()
+		close(release)
+		w2.Wait()
+		// drop what the harness keeps alive for this round only when it is safe: never (addresses must
+		// stay unique), but the pool's own references go away with two collections
+		runtime.GC()
+		runtime.GC()
+		time.Sleep(200 * time.Microsecond)
+	}
 	nNew, nReuse := 0, 0
 	for _, e := range events {
 		if e.get {
